@@ -15,8 +15,9 @@ package cte
 //@ func (*Writer).WriteInt
 //@   trusted
 //@   requires _this.writer != nil && !wfailed
-//@   modifies out, outLen, wfailed, _this.Column, _this.Buffer, memall(uint8), alloc, txtInts, txtLastInt, txtLastBase
+//@   modifies out, outLen, wfailed, _this.Column, _this.Buffer, mem(_this.Buffer), alloc, txtInts, txtLastInt, txtLastBase
 //@   ensures !wfailed && txtInts == old(txtInts) + 1 && txtLastInt == value && txtLastBase == base
+//@   ensures (_this.Buffer == old(_this.Buffer) || fresh(_this.Buffer)) && len(_this.Buffer) >= old(len(_this.Buffer))
 //@   xensures wfailed
 
 //@ func (*Writer).FlushBufferPortionNotLF
@@ -30,10 +31,96 @@ package cte
 // magnitudes of 2^63 and above, which int64 cannot hold).
 //@ func (*Writer).WriteFloatHexNoPrefix
 //@   requires CteWriterOK(_this) && !wfailed
-//@   modifies out, outLen, wfailed, _this.Column, _this.Buffer, memall(uint8), alloc, txtInts, txtLastInt, txtLastBase
+//@   ghost_set fltVal[fltN] = bits(value)
+//@   ghost_set fltHex[fltN] = true
+//@   ghost_set fltN = fltN + 1
+//@   modifies out, outLen, wfailed, _this.Column, _this.Buffer, mem(_this.Buffer), alloc, txtInts, txtLastInt, txtLastBase
 //@   ensures !wfailed
+//@   ensures (_this.Buffer == old(_this.Buffer) || fresh(_this.Buffer)) && len(_this.Buffer) >= old(len(_this.Buffer))
 //@   ensures txtInts == old(txtInts) || (txtInts == old(txtInts) + 1 && txtLastBase == 16 && bits(float64(txtLastInt)) == bits(value))
 //@   xensures wfailed
+
+
+// ---------------------------------------------------------------------------------------------
+// Element writers (the function literals stored in addElementsFunc). What fmt / strconv print is
+// trusted; what is recorded (ghost) is WHAT is handed to them for each element:
+//  integers: fmtVal (64-bit image: zero extended for unsigned, sign extended for signed kinds) and
+//            fmtTyp (1 unsigned, 2 signed, 3 float64: the Go type decides how fmt prints the value);
+//  floats:   fltVal (the float64 bit pattern written) and fltHex (written by WriteFloatHexNoPrefix
+//            or by WriteFloatUsingFormat).
+//@ ghost fmtN uint64
+//@ ghost fmtVal array[uint64]uint64
+//@ ghost fmtTyp array[uint64]uint8
+//@ ghost fltN uint64
+//@ ghost fltVal array[uint64]uint64
+//@ ghost fltHex array[uint64]bool
+//@ spec FmtVal(a any) uint64 = ite(typeIs(a, "uint8"), uint64(payload(a, "uint8")), ite(typeIs(a, "uint"), uint64(payload(a, "uint")), ite(typeIs(a, "uint64"), payload(a, "uint64"), ite(typeIs(a, "int8"), uint64(int64(payload(a, "int8"))), ite(typeIs(a, "int16"), uint64(int64(payload(a, "int16"))), ite(typeIs(a, "int32"), uint64(int64(payload(a, "int32"))), ite(typeIs(a, "int64"), uint64(payload(a, "int64")), ite(typeIs(a, "float64"), bits(payload(a, "float64")), uint64(0)))))))))
+//@ spec FmtTyp(a any) uint8 = ite(typeIs(a, "uint8") || typeIs(a, "uint") || typeIs(a, "uint64"), uint8(1), ite(typeIs(a, "int8") || typeIs(a, "int16") || typeIs(a, "int32") || typeIs(a, "int64"), uint8(2), ite(typeIs(a, "float64"), uint8(3), uint8(0))))
+//@ spec BufOK(w *Writer) bool = w != nil && w.writer != nil && w.stringWriter != nil && len(w.Buffer) >= 1
+
+//@ func (*Writer).WriteFmtNotLF
+//@   trusted
+//@   requires _this.stringWriter != nil && !wfailed && len(args) == 1
+//@   modifies out, outLen, wfailed, _this.Column, alloc, fmtN, fmtVal, fmtTyp
+//@   ensures !wfailed && fmtN == old(fmtN) + 1 && fmtVal[old(fmtN)] == FmtVal(args[0]) && fmtTyp[old(fmtN)] == FmtTyp(args[0])
+//@   ensures forall j uint64 :: j != old(fmtN) ==> fmtVal[j] == old(fmtVal[j]) && fmtTyp[j] == old(fmtTyp[j])
+//@   xensures wfailed
+
+//@ func (*Writer).WriteFloatUsingFormat
+//@   requires _this.stringWriter != nil && !wfailed
+//@   ghost_set fltVal[fltN] = bits(value)
+//@   ghost_set fltHex[fltN] = false
+//@   ghost_set fltN = fltN + 1
+//@   modifies out, outLen, wfailed, _this.Column, alloc, fmtN, fmtVal, fmtTyp
+//@   ensures !wfailed
+//@   xensures wfailed
+
+//@ func (*arrayEncoderEngine).writeSpaceIfNotFirstElement
+//@   requires BufOK(_this.stream) && !wfailed
+//@   modifies _this.hasWrittenElements, out, outLen, wfailed, Writer.Column, mem(_this.stream.Buffer)
+//@   ensures !wfailed
+//@   xensures wfailed
+
+// ---------------------------------------------------------------------------------------------
+// Bit arrays (C23): however the packed bytes of a chunk are divided among data events, every data
+// event writes min(remaining, 8 * len(data)) characters, character k being bit k%8 of byte k/8 of
+// this event's data ('1' or '0'), the remaining element count drops by exactly that, and the array is
+// closed exactly when the final chunk has no elements left.
+//@ spec BitChar(d []byte, k uint64) byte = ite((d[k >> 3] >> (k & 7)) & 1 == 1, byte('1'), byte('0'))
+//@ func (*arrayEncoderEngine).addBooleanArrayData
+//@   requires _this.stream != nil && _this.stream.writer != nil && len(_this.stream.Buffer) >= 1 && !wfailed && _this.onComplete != nil && len(data) <= 0x1000000000 && _this.remainingChunkElements <= 0x1000000000000 && data.arr != _this.stream.Buffer.arr && outLen <= 0x10000000000
+//@   let R = _this.remainingChunkElements
+//@   let E = ite(R <= 8 * uint64(len(data)), R, 8 * uint64(len(data)))
+//@   modifies _this.remainingChunkElements, endCalls, allheap, out, outLen, wfailed, Writer.Column, memall(uint8)
+//@   may_panic
+//@   ensures endCalls == old(endCalls) + ite(R == E && !old(_this.moreChunksFollow), uint64(1), uint64(0))
+//@   ensures endCalls == old(endCalls) ==> _this.remainingChunkElements == R - E && !wfailed && outLen == old(outLen) + E
+//@   ensures endCalls == old(endCalls) ==> forall k uint64 :: k < E ==> out[old(outLen) + k] == BitChar(data, k)
+//@   ensures endCalls == old(endCalls) ==> forall j uint64 :: j < old(outLen) ==> out[j] == old(out[j])
+//@   loop 0 modifies _this.remainingChunkElements, out, outLen, wfailed, Writer.Column, mem(_this.stream.Buffer)
+//@   loop 0 invariant !wfailed && _this.stream != nil && _this.stream.writer != nil && len(_this.stream.Buffer) >= 1 && endCalls == old(endCalls)
+//@   loop 0 invariant data.arr == data0.arr && len(data) <= len(data0) && data.off + len(data) == data0.off + len(data0)
+//@   loop 0 invariant _this.remainingChunkElements == R - 8 * uint64(len(data0) - len(data)) && 8 * uint64(len(data0) - len(data)) <= R && outLen == old(outLen) + 8 * uint64(len(data0) - len(data))
+//@   loop 0 invariant forall k uint64 :: k < 8 * uint64(len(data0) - len(data)) ==> out[old(outLen) + k] == BitChar(data0, k)
+//@   loop 0 invariant outLen <= 0x10000000000 && old(outLen) <= outLen
+//@   loop 0 invariant forall j uint64 :: j < old(outLen) ==> out[j] == old(out[j])
+//@   loop 0 decreases len(data)
+//@   loop 1 modifies out, outLen, wfailed, Writer.Column, mem(_this.stream.Buffer)
+//@   loop 1 invariant !wfailed && _this.stream != nil && _this.stream.writer != nil && len(_this.stream.Buffer) >= 1 && endCalls == old(endCalls) && 0 <= i && i <= 8
+//@   loop 1 invariant data.arr == data0.arr && len(data) <= len(data0) && data.off + len(data) == data0.off + len(data0) && len(data) > 0 && b == data[0]
+//@   loop 1 invariant _this.remainingChunkElements == R - 8 * uint64(len(data0) - len(data)) && 8 * uint64(len(data0) - len(data)) + 8 <= R && outLen == old(outLen) + 8 * uint64(len(data0) - len(data)) + uint64(i)
+//@   loop 1 invariant forall k uint64 :: k < 8 * uint64(len(data0) - len(data)) + uint64(i) ==> out[old(outLen) + k] == BitChar(data0, k)
+//@   loop 1 invariant outLen <= 0x10000000000 && old(outLen) <= outLen
+//@   loop 1 invariant forall j uint64 :: j < old(outLen) ==> out[j] == old(out[j])
+//@   loop 1 decreases 8 - i
+//@   loop 2 modifies out, outLen, wfailed, Writer.Column, mem(_this.stream.Buffer)
+//@   loop 2 invariant !wfailed && _this.stream != nil && _this.stream.writer != nil && len(_this.stream.Buffer) >= 1 && endCalls == old(endCalls) && 0 <= i && uint64(i) <= count && count < 8
+//@   loop 2 invariant data.arr == data0.arr && len(data) <= len(data0) && data.off + len(data) == data0.off + len(data0) && len(data) > 0 && b == data[0]
+//@   loop 2 invariant _this.remainingChunkElements == count && count == R - 8 * uint64(len(data0) - len(data)) && outLen == old(outLen) + 8 * uint64(len(data0) - len(data)) + uint64(i)
+//@   loop 2 invariant forall k uint64 :: k < 8 * uint64(len(data0) - len(data)) + uint64(i) ==> out[old(outLen) + k] == BitChar(data0, k)
+//@   loop 2 invariant outLen <= 0x10000000000 && old(outLen) <= outLen
+//@   loop 2 invariant forall j uint64 :: j < old(outLen) ==> out[j] == old(out[j])
+//@   loop 2 decreases count - uint64(i)
 
 // ---- GENERATED by /verif/scripts/gen_cte_arrays.py ----
 //@ const_global arrayFormats16, arrayFormats32, arrayFormats64, arrayFormats8, arrayFormatsGeneral, arrayHeadersFloat16, arrayHeadersFloat32, arrayHeadersFloat64, arrayHeadersInt16, arrayHeadersInt32, arrayHeadersInt64, arrayHeadersInt8, arrayHeadersUint16, arrayHeadersUint32, arrayHeadersUint64, arrayHeadersUint8
@@ -179,5 +266,198 @@ package cte
 //@   ensures f == 8 || f == 9 ==> closureIs(_this.addElementsFunc, "beginArrayFloat64$1") && outLen == old(outLen) + 6 && out[old(outLen)+0] == '@' && out[old(outLen)+1] == 'f' && out[old(outLen)+2] == '6' && out[old(outLen)+3] == '4' && out[old(outLen)+4] == 'x' && out[old(outLen)+5] == '['
 //@   ensures !(f == 8 || f == 9) ==> closureIs(_this.addElementsFunc, "beginArrayFloat64$2") && outLen == old(outLen) + 5 && out[old(outLen)+0] == '@' && out[old(outLen)+1] == 'f' && out[old(outLen)+2] == '6' && out[old(outLen)+3] == '4' && out[old(outLen)+4] == '[' && len(closureVar(_this.addElementsFunc, "format")) == 2 && closureVar(_this.addElementsFunc, "format")[0] == '%' && closureVar(_this.addElementsFunc, "format")[1] == 'v'
 //@   xensures wfailed
+
+// Element writers: element k of a data event is the little-endian image of bytes k*w .. k*w+w-1; it is
+// handed to fmt as the Go type that prints it with the right sign (unsigned kinds as uint/uint8/uint64,
+// signed kinds as intN), float elements are widened to float64 keeping NaNs signaling or quiet.
+//@ spec LE16(d []byte, k uint64) uint64 = uint64(d[2*k]) | uint64(d[2*k+1]) << 8
+//@ spec LE32(d []byte, k uint64) uint64 = uint64(d[4*k]) | uint64(d[4*k+1]) << 8 | uint64(d[4*k+2]) << 16 | uint64(d[4*k+3]) << 24
+//@ spec LE64(d []byte, k uint64) uint64 = uint64(d[8*k]) | uint64(d[8*k+1]) << 8 | uint64(d[8*k+2]) << 16 | uint64(d[8*k+3]) << 24 | uint64(d[8*k+4]) << 32 | uint64(d[8*k+5]) << 40 | uint64(d[8*k+6]) << 48 | uint64(d[8*k+7]) << 56
+//@ spec F32NaN(x uint32) bool = x & 0x7f800000 == 0x7f800000 && x & 0x007fffff != 0
+//@ spec F32Elem(v uint64, x uint32) bool = ite(F32NaN(x), isNaN(float64frombits(v)) && ((v & 0x0008000000000000 != 0) == (x & 0x00400000 != 0)), v == bits(float64(float32frombits(x))))
+
+//@ func (*arrayEncoderEngine).beginArrayUint8$1
+//@   requires _this != nil && BufOK(_this.stream) && !wfailed && len(data) & 0 == 0 && len(data) <= 0x1000000000 && data.arr != _this.stream.Buffer.arr && allocated(data) && fmtN <= 0x10000000000
+//@   modifies arrayEncoderEngine.hasWrittenElements, out, outLen, wfailed, Writer.Column, Writer.Buffer, memall(uint8), alloc, txtInts, txtLastInt, txtLastBase, fmtN, fmtVal, fmtTyp, fltN, fltVal, fltHex
+//@   ensures !wfailed && fmtN == old(fmtN) + uint64(len(data))
+//@   ensures forall k uint64 :: k < uint64(len(data)) ==> fmtTyp[old(fmtN) + k] == 1 && fmtVal[old(fmtN) + k] == uint64(old(data[k]))
+//@   xensures wfailed
+//@   loop 0 modifies arrayEncoderEngine.hasWrittenElements, out, outLen, wfailed, Writer.Column, Writer.Buffer, memall(uint8), alloc, txtInts, txtLastInt, txtLastBase, fmtN, fmtVal, fmtTyp, fltN, fltVal, fltHex
+//@   loop 0 invariant !wfailed && BufOK(_this.stream) && data.arr != _this.stream.Buffer.arr && 0 - 1 <= rangeindex && rangeindex < len(data) || (len(data) == 0 && rangeindex == 0 - 1)
+//@   loop 0 invariant !wfailed && BufOK(_this.stream) && data.arr != _this.stream.Buffer.arr
+//@   loop 0 invariant forall i int :: 0 <= i && i < len(data) ==> data[i] == old(data[i])
+//@   loop 0 invariant fmtN == old(fmtN) + uint64(rangeindex + 1)
+//@   loop 0 invariant forall k uint64 :: k < uint64(rangeindex + 1) ==> fmtTyp[old(fmtN) + k] == 1 && fmtVal[old(fmtN) + k] == uint64(old(data[k]))
+//@   loop 0 decreases len(data) - rangeindex
+
+//@ func (*arrayEncoderEngine).beginArrayUint16$1
+//@   requires _this != nil && BufOK(_this.stream) && !wfailed && len(data) & 1 == 0 && len(data) <= 0x1000000000 && data.arr != _this.stream.Buffer.arr && allocated(data) && fmtN <= 0x10000000000
+//@   modifies arrayEncoderEngine.hasWrittenElements, out, outLen, wfailed, Writer.Column, Writer.Buffer, memall(uint8), alloc, txtInts, txtLastInt, txtLastBase, fmtN, fmtVal, fmtTyp, fltN, fltVal, fltHex
+//@   ensures !wfailed && fmtN == old(fmtN) + uint64(len(data)) >> 1
+//@   ensures forall k uint64 :: k < uint64(len(data)) >> 1 ==> fmtTyp[old(fmtN) + k] == 1 && fmtVal[old(fmtN) + k] == old(LE16(data, k))
+//@   xensures wfailed
+//@   loop 0 modifies arrayEncoderEngine.hasWrittenElements, out, outLen, wfailed, Writer.Column, Writer.Buffer, memall(uint8), alloc, txtInts, txtLastInt, txtLastBase, fmtN, fmtVal, fmtTyp, fltN, fltVal, fltHex
+//@   loop 0 invariant !wfailed && BufOK(_this.stream) && data.arr != _this.stream.Buffer.arr && data.arr == data0.arr && len(data) <= len(data0) && data.off + len(data) == data0.off + len(data0) && len(data) & 1 == 0
+//@   loop 0 invariant forall i int :: 0 <= i && i < len(data0) ==> data0[i] == old(data0[i])
+//@   loop 0 invariant fmtN == old(fmtN) + uint64(len(data0) - len(data)) >> 1
+//@   loop 0 invariant forall k uint64 :: k < uint64(len(data0) - len(data)) >> 1 ==> fmtTyp[old(fmtN) + k] == 1 && fmtVal[old(fmtN) + k] == old(LE16(data0, k))
+//@   loop 0 decreases len(data)
+
+//@ func (*arrayEncoderEngine).beginArrayUint32$1
+//@   requires _this != nil && BufOK(_this.stream) && !wfailed && len(data) & 3 == 0 && len(data) <= 0x1000000000 && data.arr != _this.stream.Buffer.arr && allocated(data) && fmtN <= 0x10000000000
+//@   modifies arrayEncoderEngine.hasWrittenElements, out, outLen, wfailed, Writer.Column, Writer.Buffer, memall(uint8), alloc, txtInts, txtLastInt, txtLastBase, fmtN, fmtVal, fmtTyp, fltN, fltVal, fltHex
+//@   ensures !wfailed && fmtN == old(fmtN) + uint64(len(data)) >> 2
+//@   ensures forall k uint64 :: k < uint64(len(data)) >> 2 ==> fmtTyp[old(fmtN) + k] == 1 && fmtVal[old(fmtN) + k] == old(LE32(data, k))
+//@   xensures wfailed
+//@   loop 0 modifies arrayEncoderEngine.hasWrittenElements, out, outLen, wfailed, Writer.Column, Writer.Buffer, memall(uint8), alloc, txtInts, txtLastInt, txtLastBase, fmtN, fmtVal, fmtTyp, fltN, fltVal, fltHex
+//@   loop 0 invariant !wfailed && BufOK(_this.stream) && data.arr != _this.stream.Buffer.arr && data.arr == data0.arr && len(data) <= len(data0) && data.off + len(data) == data0.off + len(data0) && len(data) & 3 == 0
+//@   loop 0 invariant forall i int :: 0 <= i && i < len(data0) ==> data0[i] == old(data0[i])
+//@   loop 0 invariant fmtN == old(fmtN) + uint64(len(data0) - len(data)) >> 2
+//@   loop 0 invariant forall k uint64 :: k < uint64(len(data0) - len(data)) >> 2 ==> fmtTyp[old(fmtN) + k] == 1 && fmtVal[old(fmtN) + k] == old(LE32(data0, k))
+//@   loop 0 decreases len(data)
+
+//@ func (*arrayEncoderEngine).beginArrayUint64$1
+//@   requires _this != nil && BufOK(_this.stream) && !wfailed && len(data) & 7 == 0 && len(data) <= 0x1000000000 && data.arr != _this.stream.Buffer.arr && allocated(data) && fmtN <= 0x10000000000
+//@   modifies arrayEncoderEngine.hasWrittenElements, out, outLen, wfailed, Writer.Column, Writer.Buffer, memall(uint8), alloc, txtInts, txtLastInt, txtLastBase, fmtN, fmtVal, fmtTyp, fltN, fltVal, fltHex
+//@   ensures !wfailed && fmtN == old(fmtN) + uint64(len(data)) >> 3
+//@   ensures forall k uint64 :: k < uint64(len(data)) >> 3 ==> fmtTyp[old(fmtN) + k] == 1 && fmtVal[old(fmtN) + k] == old(LE64(data, k))
+//@   xensures wfailed
+//@   loop 0 modifies arrayEncoderEngine.hasWrittenElements, out, outLen, wfailed, Writer.Column, Writer.Buffer, memall(uint8), alloc, txtInts, txtLastInt, txtLastBase, fmtN, fmtVal, fmtTyp, fltN, fltVal, fltHex
+//@   loop 0 invariant !wfailed && BufOK(_this.stream) && data.arr != _this.stream.Buffer.arr && data.arr == data0.arr && len(data) <= len(data0) && data.off + len(data) == data0.off + len(data0) && len(data) & 7 == 0
+//@   loop 0 invariant forall i int :: 0 <= i && i < len(data0) ==> data0[i] == old(data0[i])
+//@   loop 0 invariant fmtN == old(fmtN) + uint64(len(data0) - len(data)) >> 3
+//@   loop 0 invariant forall k uint64 :: k < uint64(len(data0) - len(data)) >> 3 ==> fmtTyp[old(fmtN) + k] == 1 && fmtVal[old(fmtN) + k] == old(LE64(data0, k))
+//@   loop 0 decreases len(data)
+
+//@ func (*arrayEncoderEngine).beginArrayInt8$1
+//@   requires _this != nil && BufOK(_this.stream) && !wfailed && len(data) & 0 == 0 && len(data) <= 0x1000000000 && data.arr != _this.stream.Buffer.arr && allocated(data) && fmtN <= 0x10000000000
+//@   modifies arrayEncoderEngine.hasWrittenElements, out, outLen, wfailed, Writer.Column, Writer.Buffer, memall(uint8), alloc, txtInts, txtLastInt, txtLastBase, fmtN, fmtVal, fmtTyp, fltN, fltVal, fltHex
+//@   ensures !wfailed && fmtN == old(fmtN) + uint64(len(data))
+//@   ensures forall k uint64 :: k < uint64(len(data)) ==> fmtTyp[old(fmtN) + k] == 2 && fmtVal[old(fmtN) + k] == uint64(int64(int8(uint64(old(data[k])))))
+//@   xensures wfailed
+//@   loop 0 modifies arrayEncoderEngine.hasWrittenElements, out, outLen, wfailed, Writer.Column, Writer.Buffer, memall(uint8), alloc, txtInts, txtLastInt, txtLastBase, fmtN, fmtVal, fmtTyp, fltN, fltVal, fltHex
+//@   loop 0 invariant !wfailed && BufOK(_this.stream) && data.arr != _this.stream.Buffer.arr && 0 - 1 <= rangeindex && rangeindex < len(data) || (len(data) == 0 && rangeindex == 0 - 1)
+//@   loop 0 invariant !wfailed && BufOK(_this.stream) && data.arr != _this.stream.Buffer.arr
+//@   loop 0 invariant forall i int :: 0 <= i && i < len(data) ==> data[i] == old(data[i])
+//@   loop 0 invariant fmtN == old(fmtN) + uint64(rangeindex + 1)
+//@   loop 0 invariant forall k uint64 :: k < uint64(rangeindex + 1) ==> fmtTyp[old(fmtN) + k] == 2 && fmtVal[old(fmtN) + k] == uint64(int64(int8(uint64(old(data[k])))))
+//@   loop 0 decreases len(data) - rangeindex
+
+//@ func (*arrayEncoderEngine).beginArrayInt16$1
+//@   requires _this != nil && BufOK(_this.stream) && !wfailed && len(data) & 1 == 0 && len(data) <= 0x1000000000 && data.arr != _this.stream.Buffer.arr && allocated(data) && fmtN <= 0x10000000000
+//@   modifies arrayEncoderEngine.hasWrittenElements, out, outLen, wfailed, Writer.Column, Writer.Buffer, memall(uint8), alloc, txtInts, txtLastInt, txtLastBase, fmtN, fmtVal, fmtTyp, fltN, fltVal, fltHex
+//@   ensures !wfailed && fmtN == old(fmtN) + uint64(len(data)) >> 1
+//@   ensures forall k uint64 :: k < uint64(len(data)) >> 1 ==> fmtTyp[old(fmtN) + k] == 2 && fmtVal[old(fmtN) + k] == uint64(int64(int16(old(LE16(data, k)))))
+//@   xensures wfailed
+//@   loop 0 modifies arrayEncoderEngine.hasWrittenElements, out, outLen, wfailed, Writer.Column, Writer.Buffer, memall(uint8), alloc, txtInts, txtLastInt, txtLastBase, fmtN, fmtVal, fmtTyp, fltN, fltVal, fltHex
+//@   loop 0 invariant !wfailed && BufOK(_this.stream) && data.arr != _this.stream.Buffer.arr && data.arr == data0.arr && len(data) <= len(data0) && data.off + len(data) == data0.off + len(data0) && len(data) & 1 == 0
+//@   loop 0 invariant forall i int :: 0 <= i && i < len(data0) ==> data0[i] == old(data0[i])
+//@   loop 0 invariant fmtN == old(fmtN) + uint64(len(data0) - len(data)) >> 1
+//@   loop 0 invariant forall k uint64 :: k < uint64(len(data0) - len(data)) >> 1 ==> fmtTyp[old(fmtN) + k] == 2 && fmtVal[old(fmtN) + k] == uint64(int64(int16(old(LE16(data0, k)))))
+//@   loop 0 decreases len(data)
+
+//@ func (*arrayEncoderEngine).beginArrayInt32$1
+//@   requires _this != nil && BufOK(_this.stream) && !wfailed && len(data) & 3 == 0 && len(data) <= 0x1000000000 && data.arr != _this.stream.Buffer.arr && allocated(data) && fmtN <= 0x10000000000
+//@   modifies arrayEncoderEngine.hasWrittenElements, out, outLen, wfailed, Writer.Column, Writer.Buffer, memall(uint8), alloc, txtInts, txtLastInt, txtLastBase, fmtN, fmtVal, fmtTyp, fltN, fltVal, fltHex
+//@   ensures !wfailed && fmtN == old(fmtN) + uint64(len(data)) >> 2
+//@   ensures forall k uint64 :: k < uint64(len(data)) >> 2 ==> fmtTyp[old(fmtN) + k] == 2 && fmtVal[old(fmtN) + k] == uint64(int64(int32(old(LE32(data, k)))))
+//@   xensures wfailed
+//@   loop 0 modifies arrayEncoderEngine.hasWrittenElements, out, outLen, wfailed, Writer.Column, Writer.Buffer, memall(uint8), alloc, txtInts, txtLastInt, txtLastBase, fmtN, fmtVal, fmtTyp, fltN, fltVal, fltHex
+//@   loop 0 invariant !wfailed && BufOK(_this.stream) && data.arr != _this.stream.Buffer.arr && data.arr == data0.arr && len(data) <= len(data0) && data.off + len(data) == data0.off + len(data0) && len(data) & 3 == 0
+//@   loop 0 invariant forall i int :: 0 <= i && i < len(data0) ==> data0[i] == old(data0[i])
+//@   loop 0 invariant fmtN == old(fmtN) + uint64(len(data0) - len(data)) >> 2
+//@   loop 0 invariant forall k uint64 :: k < uint64(len(data0) - len(data)) >> 2 ==> fmtTyp[old(fmtN) + k] == 2 && fmtVal[old(fmtN) + k] == uint64(int64(int32(old(LE32(data0, k)))))
+//@   loop 0 decreases len(data)
+
+//@ func (*arrayEncoderEngine).beginArrayInt64$1
+//@   requires _this != nil && BufOK(_this.stream) && !wfailed && len(data) & 7 == 0 && len(data) <= 0x1000000000 && data.arr != _this.stream.Buffer.arr && allocated(data) && fmtN <= 0x10000000000
+//@   modifies arrayEncoderEngine.hasWrittenElements, out, outLen, wfailed, Writer.Column, Writer.Buffer, memall(uint8), alloc, txtInts, txtLastInt, txtLastBase, fmtN, fmtVal, fmtTyp, fltN, fltVal, fltHex
+//@   ensures !wfailed && fmtN == old(fmtN) + uint64(len(data)) >> 3
+//@   ensures forall k uint64 :: k < uint64(len(data)) >> 3 ==> fmtTyp[old(fmtN) + k] == 2 && fmtVal[old(fmtN) + k] == old(LE64(data, k))
+//@   xensures wfailed
+//@   loop 0 modifies arrayEncoderEngine.hasWrittenElements, out, outLen, wfailed, Writer.Column, Writer.Buffer, memall(uint8), alloc, txtInts, txtLastInt, txtLastBase, fmtN, fmtVal, fmtTyp, fltN, fltVal, fltHex
+//@   loop 0 invariant !wfailed && BufOK(_this.stream) && data.arr != _this.stream.Buffer.arr && data.arr == data0.arr && len(data) <= len(data0) && data.off + len(data) == data0.off + len(data0) && len(data) & 7 == 0
+//@   loop 0 invariant forall i int :: 0 <= i && i < len(data0) ==> data0[i] == old(data0[i])
+//@   loop 0 invariant fmtN == old(fmtN) + uint64(len(data0) - len(data)) >> 3
+//@   loop 0 invariant forall k uint64 :: k < uint64(len(data0) - len(data)) >> 3 ==> fmtTyp[old(fmtN) + k] == 2 && fmtVal[old(fmtN) + k] == old(LE64(data0, k))
+//@   loop 0 decreases len(data)
+
+//@ func (*arrayEncoderEngine).beginArrayFloat16$1
+//@   requires _this != nil && BufOK(_this.stream) && !wfailed && len(data) & 1 == 0 && len(data) <= 0x1000000000 && data.arr != _this.stream.Buffer.arr && allocated(data) && fltN <= 0x10000000000
+//@   modifies arrayEncoderEngine.hasWrittenElements, out, outLen, wfailed, Writer.Column, Writer.Buffer, memall(uint8), alloc, txtInts, txtLastInt, txtLastBase, fmtN, fmtVal, fmtTyp, fltN, fltVal, fltHex
+//@   ensures !wfailed && fltN == old(fltN) + uint64(len(data)) >> 1
+//@   ensures forall k uint64 :: k < uint64(len(data)) >> 1 ==> fltHex[old(fltN) + k] && F32Elem(fltVal[old(fltN) + k], uint32(old(LE16(data, k))) << 16)
+//@   xensures wfailed
+//@   loop 0 modifies arrayEncoderEngine.hasWrittenElements, out, outLen, wfailed, Writer.Column, Writer.Buffer, memall(uint8), alloc, txtInts, txtLastInt, txtLastBase, fmtN, fmtVal, fmtTyp, fltN, fltVal, fltHex
+//@   loop 0 invariant !wfailed && BufOK(_this.stream) && data.arr != _this.stream.Buffer.arr && data.arr == data0.arr && len(data) <= len(data0) && data.off + len(data) == data0.off + len(data0) && len(data) & 1 == 0
+//@   loop 0 invariant forall i int :: 0 <= i && i < len(data0) ==> data0[i] == old(data0[i])
+//@   loop 0 invariant fltN == old(fltN) + uint64(len(data0) - len(data)) >> 1
+//@   loop 0 invariant forall k uint64 :: k < uint64(len(data0) - len(data)) >> 1 ==> fltHex[old(fltN) + k] && F32Elem(fltVal[old(fltN) + k], uint32(old(LE16(data0, k))) << 16)
+//@   loop 0 decreases len(data)
+
+//@ func (*arrayEncoderEngine).beginArrayFloat16$2
+//@   requires _this != nil && BufOK(_this.stream) && !wfailed && len(data) & 1 == 0 && len(data) <= 0x1000000000 && data.arr != _this.stream.Buffer.arr && allocated(data) && fltN <= 0x10000000000
+//@   modifies arrayEncoderEngine.hasWrittenElements, out, outLen, wfailed, Writer.Column, Writer.Buffer, memall(uint8), alloc, txtInts, txtLastInt, txtLastBase, fmtN, fmtVal, fmtTyp, fltN, fltVal, fltHex
+//@   ensures !wfailed && fltN == old(fltN) + uint64(len(data)) >> 1
+//@   ensures forall k uint64 :: k < uint64(len(data)) >> 1 ==> !fltHex[old(fltN) + k] && F32Elem(fltVal[old(fltN) + k], uint32(old(LE16(data, k))) << 16)
+//@   xensures wfailed
+//@   loop 0 modifies arrayEncoderEngine.hasWrittenElements, out, outLen, wfailed, Writer.Column, Writer.Buffer, memall(uint8), alloc, txtInts, txtLastInt, txtLastBase, fmtN, fmtVal, fmtTyp, fltN, fltVal, fltHex
+//@   loop 0 invariant !wfailed && BufOK(_this.stream) && data.arr != _this.stream.Buffer.arr && data.arr == data0.arr && len(data) <= len(data0) && data.off + len(data) == data0.off + len(data0) && len(data) & 1 == 0
+//@   loop 0 invariant forall i int :: 0 <= i && i < len(data0) ==> data0[i] == old(data0[i])
+//@   loop 0 invariant fltN == old(fltN) + uint64(len(data0) - len(data)) >> 1
+//@   loop 0 invariant forall k uint64 :: k < uint64(len(data0) - len(data)) >> 1 ==> !fltHex[old(fltN) + k] && F32Elem(fltVal[old(fltN) + k], uint32(old(LE16(data0, k))) << 16)
+//@   loop 0 decreases len(data)
+
+//@ func (*arrayEncoderEngine).beginArrayFloat32$1
+//@   requires _this != nil && BufOK(_this.stream) && !wfailed && len(data) & 3 == 0 && len(data) <= 0x1000000000 && data.arr != _this.stream.Buffer.arr && allocated(data) && fltN <= 0x10000000000
+//@   modifies arrayEncoderEngine.hasWrittenElements, out, outLen, wfailed, Writer.Column, Writer.Buffer, memall(uint8), alloc, txtInts, txtLastInt, txtLastBase, fmtN, fmtVal, fmtTyp, fltN, fltVal, fltHex
+//@   ensures !wfailed && fltN == old(fltN) + uint64(len(data)) >> 2
+//@   ensures forall k uint64 :: k < uint64(len(data)) >> 2 ==> fltHex[old(fltN) + k] && F32Elem(fltVal[old(fltN) + k], uint32(old(LE32(data, k))))
+//@   xensures wfailed
+//@   loop 0 modifies arrayEncoderEngine.hasWrittenElements, out, outLen, wfailed, Writer.Column, Writer.Buffer, memall(uint8), alloc, txtInts, txtLastInt, txtLastBase, fmtN, fmtVal, fmtTyp, fltN, fltVal, fltHex
+//@   loop 0 invariant !wfailed && BufOK(_this.stream) && data.arr != _this.stream.Buffer.arr && data.arr == data0.arr && len(data) <= len(data0) && data.off + len(data) == data0.off + len(data0) && len(data) & 3 == 0
+//@   loop 0 invariant forall i int :: 0 <= i && i < len(data0) ==> data0[i] == old(data0[i])
+//@   loop 0 invariant fltN == old(fltN) + uint64(len(data0) - len(data)) >> 2
+//@   loop 0 invariant forall k uint64 :: k < uint64(len(data0) - len(data)) >> 2 ==> fltHex[old(fltN) + k] && F32Elem(fltVal[old(fltN) + k], uint32(old(LE32(data0, k))))
+//@   loop 0 decreases len(data)
+
+//@ func (*arrayEncoderEngine).beginArrayFloat32$2
+//@   requires _this != nil && BufOK(_this.stream) && !wfailed && len(data) & 3 == 0 && len(data) <= 0x1000000000 && data.arr != _this.stream.Buffer.arr && allocated(data) && fltN <= 0x10000000000
+//@   modifies arrayEncoderEngine.hasWrittenElements, out, outLen, wfailed, Writer.Column, Writer.Buffer, memall(uint8), alloc, txtInts, txtLastInt, txtLastBase, fmtN, fmtVal, fmtTyp, fltN, fltVal, fltHex
+//@   ensures !wfailed && fltN == old(fltN) + uint64(len(data)) >> 2
+//@   ensures forall k uint64 :: k < uint64(len(data)) >> 2 ==> !fltHex[old(fltN) + k] && F32Elem(fltVal[old(fltN) + k], uint32(old(LE32(data, k))))
+//@   xensures wfailed
+//@   loop 0 modifies arrayEncoderEngine.hasWrittenElements, out, outLen, wfailed, Writer.Column, Writer.Buffer, memall(uint8), alloc, txtInts, txtLastInt, txtLastBase, fmtN, fmtVal, fmtTyp, fltN, fltVal, fltHex
+//@   loop 0 invariant !wfailed && BufOK(_this.stream) && data.arr != _this.stream.Buffer.arr && data.arr == data0.arr && len(data) <= len(data0) && data.off + len(data) == data0.off + len(data0) && len(data) & 3 == 0
+//@   loop 0 invariant forall i int :: 0 <= i && i < len(data0) ==> data0[i] == old(data0[i])
+//@   loop 0 invariant fltN == old(fltN) + uint64(len(data0) - len(data)) >> 2
+//@   loop 0 invariant forall k uint64 :: k < uint64(len(data0) - len(data)) >> 2 ==> !fltHex[old(fltN) + k] && F32Elem(fltVal[old(fltN) + k], uint32(old(LE32(data0, k))))
+//@   loop 0 decreases len(data)
+
+//@ func (*arrayEncoderEngine).beginArrayFloat64$1
+//@   requires _this != nil && BufOK(_this.stream) && !wfailed && len(data) & 7 == 0 && len(data) <= 0x1000000000 && data.arr != _this.stream.Buffer.arr && allocated(data) && fltN <= 0x10000000000
+//@   modifies arrayEncoderEngine.hasWrittenElements, out, outLen, wfailed, Writer.Column, Writer.Buffer, memall(uint8), alloc, txtInts, txtLastInt, txtLastBase, fmtN, fmtVal, fmtTyp, fltN, fltVal, fltHex
+//@   ensures !wfailed && fltN == old(fltN) + uint64(len(data)) >> 3
+//@   ensures forall k uint64 :: k < uint64(len(data)) >> 3 ==> fltHex[old(fltN) + k] && fltVal[old(fltN) + k] == old(LE64(data, k))
+//@   xensures wfailed
+//@   loop 0 modifies arrayEncoderEngine.hasWrittenElements, out, outLen, wfailed, Writer.Column, Writer.Buffer, memall(uint8), alloc, txtInts, txtLastInt, txtLastBase, fmtN, fmtVal, fmtTyp, fltN, fltVal, fltHex
+//@   loop 0 invariant !wfailed && BufOK(_this.stream) && data.arr != _this.stream.Buffer.arr && data.arr == data0.arr && len(data) <= len(data0) && data.off + len(data) == data0.off + len(data0) && len(data) & 7 == 0
+//@   loop 0 invariant forall i int :: 0 <= i && i < len(data0) ==> data0[i] == old(data0[i])
+//@   loop 0 invariant fltN == old(fltN) + uint64(len(data0) - len(data)) >> 3
+//@   loop 0 invariant forall k uint64 :: k < uint64(len(data0) - len(data)) >> 3 ==> fltHex[old(fltN) + k] && fltVal[old(fltN) + k] == old(LE64(data0, k))
+//@   loop 0 decreases len(data)
+
+//@ func (*arrayEncoderEngine).beginArrayFloat64$2
+//@   requires _this != nil && BufOK(_this.stream) && !wfailed && len(data) & 7 == 0 && len(data) <= 0x1000000000 && data.arr != _this.stream.Buffer.arr && allocated(data) && fltN <= 0x10000000000
+//@   modifies arrayEncoderEngine.hasWrittenElements, out, outLen, wfailed, Writer.Column, Writer.Buffer, memall(uint8), alloc, txtInts, txtLastInt, txtLastBase, fmtN, fmtVal, fmtTyp, fltN, fltVal, fltHex
+//@   ensures !wfailed && fltN == old(fltN) + uint64(len(data)) >> 3
+//@   ensures forall k uint64 :: k < uint64(len(data)) >> 3 ==> !fltHex[old(fltN) + k] && fltVal[old(fltN) + k] == old(LE64(data, k))
+//@   xensures wfailed
+//@   loop 0 modifies arrayEncoderEngine.hasWrittenElements, out, outLen, wfailed, Writer.Column, Writer.Buffer, memall(uint8), alloc, txtInts, txtLastInt, txtLastBase, fmtN, fmtVal, fmtTyp, fltN, fltVal, fltHex
+//@   loop 0 invariant !wfailed && BufOK(_this.stream) && data.arr != _this.stream.Buffer.arr && data.arr == data0.arr && len(data) <= len(data0) && data.off + len(data) == data0.off + len(data0) && len(data) & 7 == 0
+//@   loop 0 invariant forall i int :: 0 <= i && i < len(data0) ==> data0[i] == old(data0[i])
+//@   loop 0 invariant fltN == old(fltN) + uint64(len(data0) - len(data)) >> 3
+//@   loop 0 invariant forall k uint64 :: k < uint64(len(data0) - len(data)) >> 3 ==> !fltHex[old(fltN) + k] && fltVal[old(fltN) + k] == old(LE64(data0, k))
+//@   loop 0 decreases len(data)
 
 // ---- END GENERATED ----
